@@ -723,6 +723,11 @@ class Interp:
 
     def e_SetComp(self, e, env):
         from .builtins_ import make_set
+        from . import symcoll
+        if len(e.generators) == 1:
+            it = self.ev(e.generators[0].iter, env)
+            if isinstance(it, symcoll.SymSubSet):
+                return symcoll.setcomp_over_set(self, e, env, it)
         return make_set(self, list(self.comprehend(e, env)))
 
     def e_DictComp(self, e, env):
